@@ -429,9 +429,9 @@ tfpdeftests:
 |	tfpdeftests ',' tfpdeftest
 	{
 		$$ = append($$, $3)
-		if $<expr>3 != nil {
-			$<exprs>$ = append($<exprs>$, $<expr>3)
-		}
+		// keyword-only parameters: kw_defaults runs parallel to
+		// kwonlyargs, nil (None in the AST) = no default
+		$<exprs>$ = append($<exprs>$, $<expr>3)
 	}
 
 tfpdeftests1:
@@ -522,9 +522,9 @@ vfpdeftests:
 |	vfpdeftests ',' vfpdeftest
 	{
 		$$ = append($$, $3)
-		if $<expr>3 != nil {
-			$<exprs>$ = append($<exprs>$, $<expr>3)
-		}
+		// keyword-only parameters: kw_defaults runs parallel to
+		// kwonlyargs, nil (None in the AST) = no default
+		$<exprs>$ = append($<exprs>$, $<expr>3)
 	}
 
 vfpdeftests1:
